@@ -759,6 +759,10 @@ func (g *TreeGen) genCond(r *core.Rng, depth int) *TNode {
 
 // Spice adds, after generation, the things small fresh trees never have: a very wide stack, a very long string, and ONE
 // nested instance that occurs at two positions (twice in its parent, or in its parent and again at the end of the root).
+// SpiceNoHuge keeps Spice from building thousand-element stacks (for monitors whose work per tree grows with the square of
+// its size; they have dedicated large cases instead).
+var SpiceNoHuge bool
+
 func Spice(r *core.Rng, root *TNode, wide, long, share bool) (did string) {
 	var stacks []*TNode
 	var strs []*TNode
@@ -782,7 +786,7 @@ func Spice(r *core.Rng, root *TNode, wide, long, share bool) (did string) {
 	if wide && len(stacks) > 0 {
 		w := stacks[r.Intn(len(stacks))]
 		n := r.Range(13, 60)
-		if r.Chance(1, 12) {
+		if r.Chance(1, 12) && !SpiceNoHuge {
 			n = r.Range(900, 1400) // well beyond any pre-sized or chunked regime
 		}
 		for i := 0; i < n; i++ {
